@@ -314,47 +314,89 @@ def dist_terms_rule(ctx):
             res.ok("mixture: sum_features logsumexp_components(log w - 0.5*(log 2pi + 2 log s + z^2))")
         else:
             res.fail(Finding("DIST-TERMS", lp.module, lp.qualname, path.ret_node, "mixture log-density must be sum over features of logsumexp over components of log_softmax(logits) - 0.5 * (log 2pi + 2 log std + ((x - mean) / std)**2)"))
-    # same (logits, means, stds) slots and the same positivity transform in log_prob and sample
+    # same (logits, means, stds) slots and the same positivity transform in log_prob and sample,
+    # read off the expansions: a *slot* is the k-th entry of the last (size-3) axis of the network
+    # output -- outputs[..., k], outputs[:, f, :, k], the k-th of outputs.unbind(-1) ... -- and its
+    # *role* is what it goes through: (log_)softmax -> mixture weights, softplus -> std, neither
+    # -> mean.  Private helpers shared by the two methods are expanded first.
     smp = mog.methods.get("sample")
-    def slots(fn):
-        for n in ast.walk(fn.node):
-            if isinstance(n, ast.Assign) and isinstance(n.targets[0], ast.Tuple) and isinstance(n.value, ast.Tuple) and len(n.value.elts) == 3:
-                names = [norm_text(e) for e in n.targets[0].elts]
-                idx = []
-                for e in n.value.elts:
-                    sl = e.slice if isinstance(e, ast.Subscript) else None
-                    last = sl.elts[-1] if isinstance(sl, ast.Tuple) else sl
-                    idx.append(const_number(last) if last is not None else None)
-                return names, idx
-        return None, None
     lp = mog.methods.get("log_prob")
-    n1, i1 = slots(lp)
-    n2, i2 = slots(smp)
+    from ..symexp import uwalk as _uw, is_component as _is_comp
 
-    def roles(fn, names):
-        """slot0 -> log_softmax, slot2 -> softplus (positivity), slot1 -> neither"""
-        if not names:
-            return None
-        txt = norm_text(fn.node)
-        return ("log_softmax(%s" % names[0] in txt, "softplus(%s" % names[2] in txt, "softplus(%s" % names[1] not in txt and "log_softmax(%s" % names[1] not in txt)
+    def slot_of(e):
+        if isinstance(e, ast.Subscript):
+            sl = e.slice
+            elts = sl.elts if isinstance(sl, ast.Tuple) else [sl]
+            if len(elts) >= 2 and isinstance(const_number(elts[-1]), int) and all(isinstance(x, ast.Slice) or (isinstance(x, ast.Constant) and x.value is Ellipsis) or isinstance(x, (ast.Name, ast.Constant)) for x in elts[:-1]):
+                if any(isinstance(x, ast.Constant) and x.value is Ellipsis or isinstance(x, ast.Slice) for x in elts[:-1]):
+                    return const_number(elts[-1])
+        if _is_comp(e) and isinstance(e.args[0], ast.Call) and isinstance(e.args[0].func, ast.Attribute) and e.args[0].func.attr == "unbind":
+            c = e.args[0]
+            d = next((k.value for k in c.keywords if k.arg == "dim"), c.args[-1] if c.args else None)
+            if d is not None and const_number(d) == -1:
+                return e.args[1].value
+        return None
 
-    if n1 and n2 and i1 == i2 == [0, 1, 2] and roles(lp, n1) == roles(smp, n2) == (True, True, True):
-        res.ok("mixture: log_prob and sample read (logits, means, unconstrained_stds) from slots 0,1,2")
+    def roles_of(fn):
+        roles = {}
+        stdforms = set()
+
+        def visit(e, enclosing, seen):
+            key = (id(e), enclosing)
+            if key in seen:
+                return
+            seen.add(key)
+            k = slot_of(e) if isinstance(e, ast.AST) else None
+            if k is not None and k in (0, 1, 2):
+                r = "mix" if enclosing & {"log_softmax", "softmax"} else ("std" if "softplus" in enclosing else "mean")
+                roles.setdefault(k, set()).add(r)
+                return
+            if isinstance(e, ast.BinOp) and isinstance(e.op, ast.Add):
+                for side, other in ((e.left, e.right), (e.right, e.left)):
+                    if isinstance(side, ast.Call) and norm_text(side.func).split(".")[-1] == "softplus" and side.args and slot_of(side.args[0]) is not None:
+                        stdforms.add("softplus($S) + %s" % norm_text(other))
+            if isinstance(e, ast.Call):
+                last = norm_text(e.func).split(".")[-1] if not _is_comp(e) else ""
+                enc2 = enclosing | ({last} if last in ("log_softmax", "softmax", "softplus") else frozenset())
+                for c in ast.iter_child_nodes(e):
+                    visit(c, frozenset(enc2), seen)
+                return
+            for c in ast.iter_child_nodes(e):
+                visit(c, enclosing, seen)
+
+        for pp in paths_of(fn.node):
+            seen = set()
+            if pp.ret is not None:
+                visit(pp.ret, frozenset(), seen)
+            for eff in pp.effects:
+                for part in eff[2:]:
+                    if isinstance(part, ast.AST):
+                        visit(part, frozenset(), seen)
+                    elif isinstance(part, list):
+                        for q in part:
+                            if isinstance(q, ast.AST):
+                                visit(q, frozenset(), seen)
+        return roles, stdforms
+
+    r1, f1 = roles_of(lp)
+    r2, f2 = roles_of(smp)
+
+    def single(r):
+        return {k: next(iter(v)) for k, v in r.items() if len(v) == 1} if all(len(v) == 1 for v in r.values()) else None
+
+    s1, s2 = single(r1), single(r2)
+    if s1 is None or s2 is None or set(s1) != {0, 1, 2} or set(s2) != {0, 1, 2}:
+        res.undecide("MixtureOfGaussiansMADE", "cannot read the roles of the three output slots (log_prob %s, sample %s)" % (r1, r2))
+    elif s1 == s2 and sorted(s1.values()) == ["mean", "mix", "std"]:
+        res.ok("mixture: log_prob and sample read %s" % ", ".join("slot %d as %s" % (k, s1[k]) for k in sorted(s1)))
     else:
-        res.fail(Finding("DIST-TERMS", smp.module, smp.qualname, smp.node, "log_prob and sample read the mixture parameters from different slots (%s %s / %s %s)" % (n1, i1, n2, i2), construct="parameter slots of the mixture"))
-    def std_form(fn, names):
-        out = []
-        for n in ast.walk(fn.node):
-            if isinstance(n, ast.Call) and norm_text(n.func).split(".")[-1] == "softplus" and n.args and names and norm_text(n.args[0]) == names[2]:
-                par = getattr(n, "_parent", None)
-                out.append(norm_text(par).replace(names[2], "$S") if isinstance(par, ast.BinOp) else norm_text(n).replace(names[2], "$S"))
-        return out
-
-    std1, std2 = std_form(lp, n1), std_form(smp, n2)
-    if std1 and std2 and std1[0] == std2[0]:
-        res.ok("mixture: the same positivity transform for stds in log_prob and sample")
+        res.fail(Finding("DIST-TERMS", smp.module, smp.qualname, smp.node, "log_prob and sample read the mixture parameters from different slots (log_prob %s / sample %s)" % (s1, s2), construct="parameter slots of the mixture"))
+    if f1 and f2 and f1 == f2 and len(f1) == 1:
+        res.ok("mixture: the same positivity transform for stds in log_prob and sample (%s)" % next(iter(f1)))
+    elif not f1 or not f2:
+        res.undecide("MixtureOfGaussiansMADE", "std transform not of the form softplus(slot) + floor")
     else:
-        res.fail(Finding("DIST-TERMS", smp.module, smp.qualname, smp.node, "log_prob and sample compute the component stds differently (%s / %s)" % (std1, std2), construct="std transform of the mixture"))
+        res.fail(Finding("DIST-TERMS", smp.module, smp.qualname, smp.node, "log_prob and sample compute the component stds differently (%s / %s)" % (sorted(f1), sorted(f2)), construct="std transform of the mixture"))
     return res
 
 
